@@ -1,0 +1,116 @@
+//  Copyright (c) 2026 Couchbase, Inc.
+//
+// Licensed under the Apache License, Version 2.0 (the "License");
+// you may not use this file except in compliance with the License.
+// You may obtain a copy of the License at
+//
+// 		http://www.apache.org/licenses/LICENSE-2.0
+//
+// Unless required by applicable law or agreed to in writing, software
+// distributed under the License is distributed on an "AS IS" BASIS,
+// WITHOUT WARRANTIES OR CONDITIONS OF ANY KIND, either express or implied.
+// See the License for the specific language governing permissions and
+// limitations under the License.
+
+//go:build verif
+
+package scorch
+
+import (
+	"path/filepath"
+	"sort"
+	"sync/atomic"
+
+	segment "github.com/blevesearch/scorch_segment_api/v2"
+)
+
+// VerifHook, when set, is called at every named point of the indexing
+// pipeline. It must be set before any index is opened and is only
+// compiled in with the "verif" build tag.
+var VerifHook atomic.Pointer[func(s *Scorch, point string)]
+
+func (s *Scorch) verifPoint(point string) {
+	if f := VerifHook.Load(); f != nil {
+		(*f)(s, point)
+	}
+}
+
+// VerifState is a consistent copy of the bookkeeping that decides which
+// files may be removed, taken under rootLock.
+type VerifState struct {
+	Path                 string
+	RootEpoch            uint64
+	NextSnapshotEpoch    uint64
+	RootSegmentIDs       []uint64
+	RootFiles            []string // base names of persisted segments in root
+	RootMemSegments      int
+	IneligibleForRemoval []string
+	EligibleForRemoval   []uint64
+	CopyScheduled        map[string]int
+}
+
+// VerifPath returns the directory of this index ("" when in memory).
+func (s *Scorch) VerifPath() string { return s.path }
+
+// VerifState returns a copy of the removal bookkeeping. It takes
+// rootLock.RLock and therefore must not be called from a point that
+// runs with rootLock held.
+func (s *Scorch) VerifState() VerifState {
+	s.rootLock.RLock()
+	defer s.rootLock.RUnlock()
+	return s.verifStateLOCKED()
+}
+
+// VerifStateLocked is VerifState for hook points that already run
+// under rootLock (purge.zap.*).
+func (s *Scorch) VerifStateLocked() VerifState {
+	return s.verifStateLOCKED()
+}
+
+func (s *Scorch) verifStateLOCKED() VerifState {
+	rv := VerifState{
+		Path:              s.path,
+		NextSnapshotEpoch: s.nextSnapshotEpoch,
+		CopyScheduled:     make(map[string]int, len(s.copyScheduled)),
+	}
+	if s.root != nil {
+		rv.RootEpoch = s.root.epoch
+		for _, ss := range s.root.segment {
+			rv.RootSegmentIDs = append(rv.RootSegmentIDs, ss.id)
+			if ps, ok := ss.segment.(segment.PersistedSegment); ok {
+				rv.RootFiles = append(rv.RootFiles, filepath.Base(ps.Path()))
+			} else {
+				rv.RootMemSegments++
+			}
+		}
+	}
+	for f, v := range s.ineligibleForRemoval {
+		if v {
+			rv.IneligibleForRemoval = append(rv.IneligibleForRemoval, f)
+		}
+	}
+	sort.Strings(rv.IneligibleForRemoval)
+	rv.EligibleForRemoval = append(rv.EligibleForRemoval, s.eligibleForRemoval...)
+	for f, n := range s.copyScheduled {
+		rv.CopyScheduled[f] = n
+	}
+	return rv
+}
+
+// VerifSegmentFiles returns the base names of the persisted segment
+// files this snapshot holds open (used to judge reader-held files).
+func (is *IndexSnapshot) VerifSegmentFiles() []string {
+	var rv []string
+	for _, ss := range is.segment {
+		if ps, ok := ss.segment.(segment.PersistedSegment); ok {
+			rv = append(rv, filepath.Base(ps.Path()))
+		}
+	}
+	return rv
+}
+
+// VerifEpoch returns the epoch of this snapshot.
+func (is *IndexSnapshot) VerifEpoch() uint64 { return is.epoch }
+
+// VerifNumSegments returns the number of segments of this snapshot.
+func (is *IndexSnapshot) VerifNumSegments() int { return len(is.segment) }
